@@ -55,7 +55,10 @@ def constant_integrand_not_modified():
 
 def infinite_limits():
     f = lambda x: torch.exp(-torch.as_tensor(x, dtype=dt) ** 2 / 2.0).reshape(1)
+    half = math.sqrt(2 * math.pi) / 2
     cases = (((-float("inf"), float("inf")), math.sqrt(2 * math.pi)), ((0.0, float("inf")), math.sqrt(2 * math.pi) / 2),
+             # reversed orientations: an infinite limit in the other slot changes the sign of the integral
+             ((float("inf"), 0.0), -half), ((0.0, -float("inf")), -half), ((float("inf"), -float("inf")), -2 * half),
              ((1.0, float("inf")), math.sqrt(2 * math.pi) * 0.5 * math.erfc(1 / math.sqrt(2))),
              ((-float("inf"), -0.5), math.sqrt(2 * math.pi) * 0.5 * math.erfc(0.5 / math.sqrt(2))))
     for (a, b), exact in cases:
